@@ -3,7 +3,7 @@
    finding, proved here as _refuted with a concrete witness. What does hold universally is proved as _partial:
    the hierarchy invariant for every role table that does not spawn from inside an actor's own OnTerminated handler
    (exactly the behaviour of the second finding) and does not claim a system address. *)
-From MV Require Import Lib.ListX Kernel.Model Kernel.Run Kernel.Lifecycle Kernel.Hierarchy Kernel.Queue.
+From MV Require Import Lib.ListX Kernel.Model Kernel.Run Kernel.Lifecycle Kernel.Hierarchy Kernel.Queue Kernel.Shutdown.
 Open Scope Z_scope.
 
 Definition quiescent (s : kstate) : Prop := forall a, In a (actors s) -> a_inflight a = None.
@@ -56,7 +56,7 @@ Theorem C05_hierarchical_partial : forall roles ls s os,
   Forall lab_ok ls -> krun roles kinit ls = Some (s, os) ->
   forall c ac, get s c = Some ac -> lookup (a_tok ac) (registry s) = Some c -> a_parent ac <> rNone ->
     (a_parent ac = rGuard /\ lookup rGuard (registry s) = None) \/
-    exists pu pa, lookup (a_parent ac) (registry s) = Some pu /\ get s pu = Some pa /\ In (a_tok ac) (a_children pa).
+    exists pu pa, lookup (a_parent ac) (registry s) = Some pu /\ get s pu = Some pa /\ In (a_tok ac) (a_children pa) /\ (pu < c)%nat.
 Proof. exact hierarchical. Qed.
 Print Assumptions C05_hierarchical_partial.
 
@@ -72,6 +72,32 @@ Proof.
   destruct (hierarchical roles ls s os Hsp Hl Hrun c ac Hc Hreg Hp) as [[E _]|(pu & pa & Hlk & _)]; [exact E|congruence].
 Qed.
 Print Assumptions C05_no_registered_child_of_unregistered_parent_partial.
+
+(* SHUTDOWN WAITS FOR EVERYONE (partial: the same two hypotheses on the scripts; the refuted theorem above shows that the
+   first one is necessary). In every run from the freshly started system, in the very step that sets the closed flag —
+   the event Shutdown returns on — NO actor is registered any more and every actor object that exists has terminated
+   (or never got registered: a spawn under a taken address). The flag is set only by the guard completing its own
+   termination, which it does only with an empty children table; by the hierarchy invariant every other registered
+   object would have a chain of registered, ever older ancestors ending in an entry of that table. *)
+Theorem C05_shutdown_returns_after_everyone_partial : forall roles ls s os l s' o,
+  (forall ro ru t r, In ro roles -> In ru (rules ro) -> In (ASpawn t r) (r_do ru) -> 0 <= t /\ r_on ru <> KTS) ->
+  Forall lab_ok ls -> lab_ok l ->
+  krun roles kinit ls = Some (s, os) -> kstep roles s l = Some (s', o) -> closed s = false -> closed s' = true ->
+  (forall t, lookup t (registry s') = None) /\
+  (forall u a, get s' u = Some a -> a_st a = Terminated \/ zombie a).
+Proof. exact shutdown_leaves_nothing. Qed.
+Print Assumptions C05_shutdown_returns_after_everyone_partial.
+
+(* the step exists: the last step of the guard in the run of C05_example below sets the flag *)
+Example C05_shutdown_step_example :
+  let roles := [ {| victim := None; sup := [DStop]; rules := [ {| r_on := KL; r_n := -1; r_inst := -1; r_do := [ASpawn 1 1] |} ] |};
+                 {| victim := None; sup := []; rules := [] |} ] in
+  exists ls l s os s' o, krun roles kinit ls = Some (s, os) /\ kstep roles s l = Some (s', o) /\
+    closed s = false /\ closed s' = true /\ length (actors s') = 4%nat /\ registry s' = [].
+Proof.
+  exists [LSpawn 0 0; LRun 2; LRun 3; LShutdown false; LRun 0; LRun 1; LRun 2; LRun 3; LRun 2; LRun 0], (LRun 0).
+  eexists. eexists. eexists. eexists. split; [vm_compute; reflexivity|]. split; [vm_compute; reflexivity|]. vm_compute. repeat split; reflexivity.
+Qed.
 
 (* the hypotheses are satisfiable by a table that does spawn, terminate and shut down (used in C05_example below) *)
 Example C05_hierarchy_hypotheses_example :
